@@ -70,7 +70,12 @@ func (c *Connack) Unpack(r io.Reader) error {
 			return codes.ErrProtocol
 		}
 		c.Properties = &Properties{}
-		return c.Properties.Unpack(bufr, CONNACK)
+		if err := c.Properties.Unpack(bufr, CONNACK); err != nil {
+			return err
+		}
+	}
+	if bufr.Len() != 0 { // bytes left over inside the remaining length
+		return codes.ErrMalformed
 	}
 	return nil
 
